@@ -211,6 +211,7 @@ func main() {
 	pkcs7RoundTrip(r, a)
 	pkcs7Malformed(r, a)
 	cbcUnpad(r, a)
+	reusedBuffers(r)
 	a.flush(r)
 	r.Assume(
 		"small-scope: plaintext lengths 0..48, three byte patterns (zeros, affine, countdown ending ...,3,2,1) for key/IV/nonce/AAD/plaintext; AES and GCM are value-oblivious apart from the pad bytes, which are enumerated over all 256 values",
